@@ -151,9 +151,11 @@ def check_c07(seed, tier):
                         for im in other.images:
                             run_cli(os.path.join(opath, im.name), 2)
                         foreign = {im.name: open(os.path.join(opath, im.name + ".index")).read() for im in other.images}
+                    except Exception:  # noqa: BLE001
+                        foreign = None      # the tool did not leave an index where it should: judged by the main loop, not here
                     finally:
                         oclean()
-                    for poison in ("not-json", "valid-index-of-another-image"):
+                    for poison in (("not-json", "valid-index-of-another-image") if foreign else ("not-json",)):
                         for im in prod.images:
                             with open(os.path.join(local_dir, im.name + ".index"), "w") as f:
                                 f.write("{not json" if poison == "not-json" else foreign[im.name])
